@@ -40,6 +40,8 @@ func runC01(c *report.Ctx) {
 	checkIDAndDeadline(c)
 	c.Clause("5 exactly one reply to this reservation")
 	checkReplySinkGuards(c)
+	c.Clause("6 one outcome per invocation: answer after reset, stale DONE cleared")
+	checkInvokeRefusalPath(c)
 }
 
 func checkRendererConstruction(c *report.Ctx) {
@@ -222,14 +224,7 @@ func checkFrontEndWiring(c *report.Ctx) {
 		}
 	}
 	c.Check("R-CONST", an.FuncName(f)+"/client-context-header", "the client context comes from the X-Amz-Client-Context header", hdr, fpos(f), 1, "decoded from that header: %v", hdr)
-	// ReadAll of r.Body
-	bodyOK := false
-	for _, call := range an.CallsTo(f, "io/ioutil.ReadAll", "io.ReadAll") {
-		if fr, k := an.AsField(an.Strip(call.Common().Args[0], false)); k && fr.Field == "Body" {
-			bodyOK = true
-		}
-	}
-	c.Check("R-WIRE", an.FuncName(f)+"/reads-request-body", "the body read is the HTTP request's body", bodyOK, fpos(f), 1, "ReadAll(r.Body): %v", bodyOK)
+	checkFrontEndReadsBody(c)
 	// success path: last Write is the proxy body
 	n, okB := 0, true
 	an.AllInstrs(f, func(in ssa.Instruction) {
@@ -372,4 +367,20 @@ func isAllocOf(a *ssa.Alloc, T string) bool {
 		return false
 	}
 	return an.TypeName(p.Elem()) == T
+}
+
+// checkFrontEndReadsBody: the front end reads the request body itself, whole (no limiting or failing reader in
+// between: an event above the limit is cut by the renderer, not refused by the front end).
+func checkFrontEndReadsBody(c *report.Ctx) {
+	f := fn(c, "M/cmd/aws-lambda-rie", "InvokeHandler")
+	if f == nil {
+		return
+	}
+	bodyOK := false
+	for _, call := range an.CallsTo(f, "io/ioutil.ReadAll", "io.ReadAll") {
+		if fr, k := an.AsField(an.Strip(call.Common().Args[0], false)); k && fr.Field == "Body" {
+			bodyOK = true
+		}
+	}
+	c.Check("R-WIRE", an.FuncName(f)+"/reads-request-body", "the body read is the HTTP request's body", bodyOK, fpos(f), 1, "ReadAll(r.Body): %v", bodyOK)
 }
